@@ -19,6 +19,9 @@ func runC01(ctx *Ctx) {
 	if ctx.Want(910000) {
 		hotWallet(ctx, 910000, "c01")
 	}
+	if ctx.Want(910001) {
+		c07Binary(ctx, 910001)
+	}
 	for c := 0; c < ctx.N(6, 60); c++ {
 		if ctx.Want(900000 + c) {
 			contractCase(ctx, 900000+c, ctx.Sub(900000+c), "keepalive", "c01-")
